@@ -106,7 +106,11 @@ def vecStep (v : VecSt) (l : Line) : VecSt × String :=
   match parseVecOp l with
   | none => (v, "bad-op\tbad-op")
   | some op =>
-    if !C01.valid v.sys 0 op then (v, "invalid\tinvalid") else
+    -- validity is judged on the spec state (`C01.Spec.valid`, the hypothesis of `C01.Props.history_refines`);
+    -- the model-state precondition follows from it (`C01.Props.valid_of_spec`) and is evaluated as well so
+    -- that a disagreement would be visible (as in Tetl.C01.Driver)
+    if !C01.Spec.valid v.sys.ty v.spec 0 op then (v, "invalid\tinvalid") else
+    if !C01.valid v.sys 0 op then (v, "err:spec-valid but not model-valid\t*") else
     let r := C01.Spec.step v.spec 0 op
     let specStr := match r.2, C01.Spec.getObj r.1 0 with
       | some o, some d => fmtVOut o ++ ";" ++ fmtVec d
@@ -152,7 +156,12 @@ def fmtSOut : C09.Out Nat → String
 
 def fmtSet (l : List Nat) : String := s!" n={l.length} d={fmtNatList l}"
 
-def parseSetOp (l : Line) : Option (C09.Op Nat) :=
+/-- The C02 stream only uses the `key_type const&` overloads (`C09.Op.lookup`); the heterogeneous-key
+    parameter of the C09 model is instantiated like in the C09 driver (key compared through its payload). -/
+abbrev SetOp := C09.Op Nat Nat
+def setHet (lt : Nat → Nat → Bool) : C09.Het Nat Nat := { ek := fun x k => lt x k, ke := fun k x => lt k x }
+
+def parseSetOp (l : Line) : Option SetOp :=
   let k := l.nat? "k"
   match l.op with
   | "set.insert" => k.map .insert
@@ -160,10 +169,10 @@ def parseSetOp (l : Line) : Option (C09.Op Nat) :=
   | "set.erase" => k.map .eraseKey
   | "set.erase_range" => do some (.eraseRange (← l.nat? "first") (← l.nat? "last"))
   | "set.clear" => some .clear
-  | "set.find" => k.map (.find · false)
-  | "set.contains" => k.map (.contains · false)
-  | "set.lower_bound" => k.map .lowerBound
-  | "set.upper_bound" => k.map .upperBound
+  | "set.find" => k.map (.lookup .find)
+  | "set.contains" => k.map (.lookup .contains)
+  | "set.lower_bound" => k.map (.lookup .lowerBound)
+  | "set.upper_bound" => k.map (.lookup .upperBound)
   | _ => none
 
 def setNew (l : Line) : Option (SetSt × String) :=
@@ -186,9 +195,9 @@ def setStep (sv : SetSt) (l : Line) : SetSt × String :=
     if !C09.Spec.valid sv.cap sv.lt sv.spec op then (sv, "invalid\tinvalid") else
     let m : Except Err (C09.St Nat × C09.Out Nat) := do
       let x ← sv.model
-      C09.step sv.kind sv.lt sv.cap x op
+      C09.step sv.kind sv.lt (setHet sv.lt) sv.cap x op
     let ms := fmtE (fun (p : C09.St Nat × C09.Out Nat) => fmtSOut p.2 ++ fmtSet p.1.cur) m
-    let (s', o) := C09.Spec.step (sv.kind == .ss) sv.lt sv.cap sv.spec op
+    let (s', o) := C09.Spec.step (sv.kind == .ss) sv.lt (setHet sv.lt) sv.cap sv.spec op
     ({ sv with model := m.map (·.1), spec := s' }, ms ++ "\t" ++ fmtSOut o ++ fmtSet s'.cur)
 
 /-! ### bits.* — Tetl.C17; `etl::bitset<N>` is `basic_bitset<N, size_t>`: 64-bit words, `k = 6` -/
